@@ -488,6 +488,13 @@ func (h *queryHarness) optionalKeepsRows(t *testing.T, c *QueryCase, data map[st
 		if ainfo.Ambiguous == "" && equalStrings(g, distinct(refRowKeys(alt))) {
 			return mk("optional-inapplicable-extraction-partial-match", "an OPTIONAL clause whose extraction cannot apply to a candidate triple still binds its other new bindings from that triple\nengine: %q\nreference: %q", g, w)
 		}
+		if fs := strings.Join(queryFeatures(c.Q), "+"); strings.Contains(fs, "bindingless-clause") || strings.Contains(fs, "optional-after-bindingless-prefix") {
+			// the other open finding that changes what the prefix yields: a part of the pattern that binds nothing
+			if len(g) == 0 {
+				return mk("result-emptied-by-bindingless-clause", "a part of the pattern that binds nothing matches, but the engine returns no rows\nreference: %q", w)
+			}
+			return mk("bindingless-prefix-not-representable", "part of the pattern binds nothing; the remaining clauses are evaluated as if that part were absent\nengine: %q\nreference: %q", g, w)
+		}
 		extra, missing := multisetDiff(g, w)
 		cls := "optional-removes-rows"
 		if len(missing) == 0 {
